@@ -448,6 +448,17 @@ func (m *MdnsManager) processMdnsEntry(elements map[string]string, name, host st
 		if address.To4() == nil && address.IsLinkLocalUnicast() {
 			continue
 		}
+		// do not add an address twice
+		isNewElement := true
+		for _, item := range newAddresses {
+			if item.String() == address.String() {
+				isNewElement = false
+				break
+			}
+		}
+		if !isNewElement {
+			continue
+		}
 		newAddresses = append(newAddresses, address)
 	}
 	addresses = newAddresses
